@@ -21,6 +21,7 @@ use module_resolver::WasmModuleResolver;
 use std::rc::Rc;
 use std::{cell::RefCell, collections::HashMap};
 use swc_common::{GLOBALS, Globals};
+#[cfg(not(beff_verif))]
 use wasm_bindgen::JsValue;
 use wasm_bindgen::prelude::wasm_bindgen;
 
@@ -50,21 +51,25 @@ pub fn init(verbose: bool) {
     utils::set_panic_hook();
 }
 
+#[cfg(not(beff_verif))]
 #[wasm_bindgen]
 extern "C" {
     fn resolve_import(current_file: &str, specifier: &str) -> Option<String>;
 }
 
+#[cfg(not(beff_verif))]
 #[wasm_bindgen]
 extern "C" {
     fn read_file_content(file_name: &str) -> Option<String>;
 }
 
+#[cfg(not(beff_verif))]
 #[wasm_bindgen]
 extern "C" {
     fn emit_diagnostic(diag: JsValue);
 }
 
+#[cfg(not(beff_verif))]
 #[wasm_bindgen]
 pub fn bundle_to_string_v2(parser_entry_point: &str, settings: &str) -> JsValue {
     match bundle_to_string_inner(parse_entrypoints(parser_entry_point, settings)) {
@@ -73,6 +78,7 @@ pub fn bundle_to_string_v2(parser_entry_point: &str, settings: &str) -> JsValue 
     }
 }
 
+#[cfg(not(beff_verif))]
 #[wasm_bindgen]
 pub fn bundle_to_diagnostics(parser_entry_point: &str, settings: &str) -> JsValue {
     let v = bundle_to_diagnostics_inner(parse_entrypoints(parser_entry_point, settings));
@@ -143,6 +149,7 @@ fn run_extraction(entry: EntryPoints) -> ParserExtractResult {
         })
     })
 }
+#[cfg(not(beff_verif))]
 fn print_errors(errors: &[DiagnosticInformation]) {
     let v = WasmDiagnostic::from_diagnostics(errors);
     let v = serde_json::to_string(&v).expect("should be able to serialize diagnostics");
@@ -175,4 +182,76 @@ fn update_file_content_inner(file_name: &str, content: &str) {
             b.files.insert(file_name, f);
         })
     }
+}
+
+// ---------------------------------------------------------------------------------------------
+// Verification hooks (only with --cfg beff_verif): a native host for the three JS imports, so that
+// the very same update_file_content_inner / bundle_to_string_inner / bundle_to_diagnostics_inner and
+// the same thread-local BUNDLER can be driven without a JS engine.
+#[cfg(beff_verif)]
+pub mod verif {
+    use super::*;
+    use std::collections::BTreeMap;
+
+    /// What the JS side provides in production.
+    #[derive(Default)]
+    pub struct Host {
+        pub disk: BTreeMap<String, String>,
+        /// files handed out by read_file_content (the watch loop watches exactly these)
+        pub reads: Vec<String>,
+        /// diagnostics passed to emit_diagnostic (JSON text of WasmDiagnostic)
+        pub emitted: Vec<String>,
+        pub resolver: Option<fn(&BTreeMap<String, String>, &str, &str) -> Option<String>>,
+    }
+
+    thread_local! {
+        pub static HOST: RefCell<Host> = RefCell::new(Host::default());
+    }
+
+    pub fn with_host<T>(f: impl FnOnce(&mut Host) -> T) -> T {
+        HOST.with(|h| f(&mut h.borrow_mut()))
+    }
+
+    pub fn update(file_name: &str, content: &str) {
+        update_file_content_inner(file_name, content)
+    }
+
+    pub fn bundle(parser_entry_point: &str, settings: &str) -> Option<String> {
+        bundle_to_string_inner(parse_entrypoints(parser_entry_point, settings)).ok()
+    }
+
+    pub fn diagnostics(parser_entry_point: &str, settings: &str) -> String {
+        let v = bundle_to_diagnostics_inner(parse_entrypoints(parser_entry_point, settings));
+        serde_json::to_string(&v).expect("should be able to serialize diagnostics")
+    }
+
+    pub fn cache_keys() -> Vec<String> {
+        let mut v: Vec<String> =
+            BUNDLER.with(|b| b.borrow().files.keys().map(|k| k.to_string()).collect());
+        v.sort();
+        v
+    }
+}
+
+#[cfg(beff_verif)]
+fn resolve_import(current_file: &str, specifier: &str) -> Option<String> {
+    verif::with_host(|h| match h.resolver {
+        Some(r) => r(&h.disk, current_file, specifier),
+        None => None,
+    })
+}
+
+#[cfg(beff_verif)]
+fn read_file_content(file_name: &str) -> Option<String> {
+    verif::with_host(|h| {
+        h.reads.push(file_name.to_string());
+        h.disk.get(file_name).cloned()
+    })
+}
+
+#[cfg(beff_verif)]
+fn print_errors(errors: &[DiagnosticInformation]) {
+    let v = WasmDiagnostic::from_diagnostics(errors);
+    let v = serde_json::to_string(&v).expect("should be able to serialize diagnostics");
+    verif::with_host(|h| h.emitted.push(v));
 }
